@@ -1,9 +1,36 @@
 package input
 
-import "github.com/holoplot/go-evdev"
+import (
+	"context"
+	"time"
 
-// NewDeviceInfoForSim is the only declaration the simulation adds to this package (in the scratch
-// copy): DeviceInfo.eventName is unexported and the LED loop matches controllers by event name.
+	"github.com/holoplot/go-evdev"
+)
+
+// NewDeviceInfoForSim: DeviceInfo.eventName is unexported and the LED loop matches controllers by event name.
 func NewDeviceInfoForSim(name, phys, event string, id InputID, types []evdev.EvType) DeviceInfo {
 	return DeviceInfo{ID: id, Name: name, Phys: phys, eventName: event, CapableTypes: types}
+}
+
+// Seams of the manager world (cmd/hidi): discovery polls /dev/input and a device is opened through evdev, neither of
+// which exists in the simulation. bin/simbuild.py renames the two real functions in the scratch copy
+// (MonitorNewDevices -> monitorNewDevicesReal, (*Device).ProcessEvents -> processEventsReal); these wrappers take their
+// names and hand over to the harness when it has installed itself. Nothing of this exists in /repo.
+var (
+	SimMonitorNewDevices func(ctx context.Context) <-chan Device
+	SimOpenDevice        func(d *Device, ctx context.Context) (<-chan *InputEvent, error)
+)
+
+func MonitorNewDevices(ctx context.Context, stabilizationPeriod, discoveryRate time.Duration) <-chan Device {
+	if SimMonitorNewDevices != nil {
+		return SimMonitorNewDevices(ctx)
+	}
+	return monitorNewDevicesReal(ctx, stabilizationPeriod, discoveryRate)
+}
+
+func (d *Device) ProcessEvents(ctx context.Context, grab bool, absThrottle time.Duration) (<-chan *InputEvent, error) {
+	if SimOpenDevice != nil {
+		return SimOpenDevice(d, ctx)
+	}
+	return d.processEventsReal(ctx, grab, absThrottle)
 }
